@@ -30,6 +30,7 @@ type AttrSpec struct {
 	Name     string   `json:"name"`
 	Friendly string   `json:"friendly,omitempty"`
 	Values   []string `json:"values"`
+	Stmt     int      `json:"stmt,omitempty"` // index of the AttributeStatement that carries it (0: the first)
 }
 
 type AsrtSpec struct {
@@ -211,15 +212,21 @@ func (a *AsrtSpec) toAssertion(t0 time.Time) *saml.Assertion {
 			AuthnContext: saml.AuthnContext{AuthnContextClassRef: &saml.AuthnContextClassRef{Value: "urn:oasis:names:tc:SAML:2.0:ac:classes:PasswordProtectedTransport"}}}}
 	}
 	if len(a.Attrs) > 0 {
-		st := saml.AttributeStatement{}
+		nst := 1
+		for _, at := range a.Attrs {
+			if at.Stmt+1 > nst {
+				nst = at.Stmt + 1
+			}
+		}
+		sts := make([]saml.AttributeStatement, nst)
 		for _, at := range a.Attrs {
 			attr := saml.Attribute{Name: at.Name, FriendlyName: at.Friendly, NameFormat: "urn:oasis:names:tc:SAML:2.0:attrname-format:basic"}
 			for _, v := range at.Values {
 				attr.Values = append(attr.Values, saml.AttributeValue{Type: "xs:string", Value: v})
 			}
-			st.Attributes = append(st.Attributes, attr)
+			sts[at.Stmt].Attributes = append(sts[at.Stmt].Attributes, attr)
 		}
-		as.AttributeStatements = []saml.AttributeStatement{st}
+		as.AttributeStatements = sts
 	}
 	return as
 }
